@@ -46,6 +46,16 @@ Proof. unfold Qgt_bool. apply Qlt_bool_spec. Qed.
 Lemma Qne_bool_spec a b : reflect (~ a == b) (Qne_bool a b).
 Proof. unfold Qne_bool. destruct (Qeq_bool_spec a b); constructor; tauto. Qed.
 
+From Coq Require Import Morphisms.
+Global Instance Qlt_bool_comp : Proper (Qeq ==> Qeq ==> eq) Qlt_bool.
+Proof. intros a a' E b b' F. unfold Qlt_bool. rewrite E, F. reflexivity. Qed.
+Global Instance Qge_bool_comp : Proper (Qeq ==> Qeq ==> eq) Qge_bool.
+Proof. intros a a' E b b' F. unfold Qge_bool. rewrite E, F. reflexivity. Qed.
+Global Instance Qgt_bool_comp : Proper (Qeq ==> Qeq ==> eq) Qgt_bool.
+Proof. intros a a' E b b' F. unfold Qgt_bool. rewrite E, F. reflexivity. Qed.
+Global Instance Qne_bool_comp : Proper (Qeq ==> Qeq ==> eq) Qne_bool.
+Proof. intros a a' E b b' F. unfold Qne_bool. rewrite E, F. reflexivity. Qed.
+
 (* ---------- int(), round(), floor ---------- *)
 (* Python int(x): truncation toward zero *)
 Definition py_int (q : Q) : Z := if Qle_bool 0 q then Qfloor q else Qceiling q.
@@ -198,6 +208,11 @@ Proof. intros Hm. apply Qmodpos_id; apply Qmodpos_range; exact Hm. Qed.
 
 Definition radians (d : Q) : Q := d * pi / 180.
 Definition degrees (r : Q) : Q := r * 180 / pi.
+
+Global Instance radians_comp : Proper (Qeq ==> Qeq) radians.
+Proof. intros a b E. unfold radians. rewrite E. reflexivity. Qed.
+Global Instance degrees_comp : Proper (Qeq ==> Qeq) degrees.
+Proof. intros a b E. unfold degrees. rewrite E. reflexivity. Qed.
 
 (* np.clip(x, lo, hi) = min(max(x, lo), hi) *)
 Definition clip (x lo hi : Q) : Q := Qmin (Qmax x lo) hi.
